@@ -33,6 +33,30 @@ CLAIMED["C05"] = dict(
     text="Seeded search over request contents x reached CA states on the real code; the model's accept/refuse verdict (iff of the statement) is compared with Krill's for every request, refusals are checked to leave configuration, stored object set and repository byte-identical with exactly one error record in the audit log. Closest to model-based testing of all properties; claimed at exploration level only.",
     design_ref="DESIGN.md §5 C05",
 )
+CLAIMED["C02"] = dict(
+    category="exploration",
+    technique="deterministic simulation: seeded entitlement histories, single-stepped real scheduler, certificates decoded from each CA's stored object set after every step, convergence and idempotence rounds",
+    text="Seeded search over entitlement histories in multi-level trees on the real code. The never-over-claims and issued-exactly clauses are instant invariants evaluated after every API operation and every single background task on the decoded object set each CA is about to publish; convergence and idempotence are bounded-liveness checks at the end of each run. Histories are unbounded, so exploration is the honest level.",
+    design_ref="DESIGN.md §5 C02",
+)
+CLAIMED["C03"] = dict(
+    category="exploration",
+    technique="deterministic simulation: seeded life-ending histories, relying-party walk, ledger of every (issuer key, serial) ever published checked against decoded CRLs",
+    text="Seeded search over histories biased towards removal, replacement and revocation; a ledger of every certificate and signed object ever validated is checked at every quiescence against the CRL of its issuing key decoded from the repository.",
+    design_ref="DESIGN.md §5 C03",
+)
+CLAIMED["C04"] = dict(
+    category="exploration",
+    technique="deterministic simulation: seeded interleavings of key-roll steps with other operations, single-stepped scheduler, invariants on stored and published object sets, bounded liveness",
+    text="Seeded search over orderings of the four roll steps with configuration, entitlement and child operations and syncs; panics and daemon exits are caught unwinds; the one-signing-key invariants are evaluated after every operation and task on the stored object sets and at quiescence on the published tree; completion of every roll within 8 rounds is checked once faults (none in this profile) have stopped.",
+    design_ref="DESIGN.md §5 C04",
+)
+CLAIMED["C14"] = dict(
+    category="exploration",
+    technique="deterministic simulation under a virtual clock: swarm-drawn timing configurations, clock jumps of minutes to weeks, before/after decoding of object sets around every real maintenance task",
+    text="Seeded search over timing configurations x histories x clock advances; the real RepublishIfNeeded / RenewObjectsIfNeeded tasks fire from the real scheduler under the virtual clock and every stored set is decoded before and after each run (due => re-issued with number+1, not due => byte-identical, payload names unchanged, numbers monotone), plus a relying-party walk at quiescence for windows containing the present.",
+    design_ref="DESIGN.md §5 C14",
+)
 PENDING = {}
 
 def main():
